@@ -6,7 +6,7 @@ from ..world import TICK
 from .base import Prop, viol
 
 E = codec.enc
-DOWN_KINDS = ("refuse", "connect_timeout", "reset", "blackhole", "eof")
+DOWN_KINDS = ("refuse", "connect_timeout", "reset", "blackhole", "eof", "unreach")
 SINGLE = ("get", "set", "delete", "incr", "touch", "add", "gets", "replace", "gat")
 MULTI = ("get_many", "set_many", "delete_many", "gets_many")
 
@@ -180,6 +180,23 @@ class C13(Prop):
                 return {"t": "call", "m": m, "a": [E({k: b"7" for k in ks})], "k": {}}
             return {"t": "call", "m": m, "a": [E(ks)], "k": {}}
 
+        if rng.random() < 0.25:
+            i = rng.randrange(nn)
+            kind = rng.choice(DOWN_KINDS)
+            tgt = names[i]
+            steps.append({"t": "node", "id": i, "health": kind})
+            steps.append(op(tgt))                                      # first failure
+            steps.append({"t": "node", "id": i, "health": "up"})
+            steps.append({"t": "advance", "dt": q(rt + 8 * TICK)})
+            steps.append(op(tgt))                                      # the retry succeeds: fully recovered
+            for _ in range(rng.randint(0, 3)):
+                steps.append(op(tgt))
+            steps.append({"t": "advance", "dt": rng.choice([q(rt * 3), q(dead + 1), 8 * TICK])})
+            steps.append({"t": "node", "id": i, "health": rng.choice(DOWN_KINDS)})
+            steps.append(op(tgt))                                      # one single new failure
+            steps.append({"t": "node", "id": i, "health": "up"})
+            for _ in range(rng.randint(2, 4)):                         # traffic continues at once
+                steps.append(op(tgt))
         for _ in range(rng.randint(20, 80)):
             r = rng.random()
             if r < 0.55:
@@ -250,14 +267,18 @@ class C13(Prop):
         # ---- ordered atoms: failed contacts, successful contacts, commands
         atoms = []
         seen_fail = set()       # one contact = one socket
+        failed_in_call = set()
         for seq, nid, kind, cid, sid, now in w.health_log:
+            failed_in_call.add((cid, sid))
             if nid is None or sid in seen_fail:
                 continue
             seen_fail.add(sid)
             atoms.append((seq, 0, "fail", nid, cid, kind, now))
         seen_ok = set()
         for seq, nid, cid, sid, now in w.ok_log:
-            if (cid, sid) in seen_ok or sid in seen_fail:
+            # a send that succeeded in a call in which the same socket then failed is part of that failed contact;
+            # earlier successful calls on a (pooled, long-lived) socket that fails later are real successes
+            if (cid, sid) in seen_ok or (cid, sid) in failed_in_call:
                 continue
             seen_ok.add((cid, sid))
             atoms.append((seq, 1, "ok", nid, cid, None, now))
@@ -434,7 +455,7 @@ class C13(Prop):
         return ("server-evicted-and-traffic-rerouted", "server-revived-after-dead_timeout", "all-servers-failing",
                 "retry-window-skipped-a-contact", "failure-kind-eof", "failure-kind-blackhole",
                 "multi-key-call-hit-failing-server", "recovered-before-eviction", "ignore_exc-run",
-                "bounded-exhaustive-sequence")
+                "bounded-exhaustive-sequence", "failure-kind-unreach")
 
     def probes(self, scn, res):
         p = {}
@@ -454,6 +475,8 @@ class C13(Prop):
                 p["failure-kind-eof"] = 1
             if kind == "blackhole":
                 p["failure-kind-blackhole"] = 1
+            if kind == "unreach":
+                p["failure-kind-unreach"] = 1
         down_now = set()
         ever_failed = set()
         hstate = {}
